@@ -497,6 +497,9 @@ class ExprMixin:
             raise Unsupported(f"record {obj.ty.name} has no field/method {attr!r} (declare it in the contract types)")
         if isinstance(obj, VNode):
             return self.node_attr(obj, attr, lineno)
+        from .ty import VEnum
+        if isinstance(obj, VEnum) and attr in ("value", "name"):
+            return VStr(obj.t) if attr == "value" else self.enum_member_name(obj)
         if isinstance(obj, VClass):
             self.resolve_vclass(obj)
             if isinstance(obj.info, ClassInfo):
@@ -660,12 +663,22 @@ class ExprMixin:
             k = coerce(key, Str)
             val = z3.Select(obj.t, k.t)
             self.maybe_raise(val != ValSort.Absent, "KeyError", lineno)
+            if self.spec_depth == 0 and self.merge_depth == 0:
+                from .ty import VAnyRef
+                return VAnyRef(obj, k.t)  # program text: the stored object itself (may be mutated through this name)
             return VAny(val)
         if isinstance(obj, VAny):
             if isinstance(key, VStr):
                 self.safety(ValSort.is_D(obj.t), "type(dict) of dynamic value", lineno)
-                return self.getitem(VDict(ValSort.dv(obj.t)), key, lineno)
+                return self.getitem(self.dict_view(obj), key, lineno)
         raise Unsupported(f"subscript on {obj}")
+
+    def dict_view(self, v):
+        """A dynamic value known to be a dict, as a dict object (a live view when v is a reference into a dict)."""
+        from .ty import VAnyRef, VDictRef
+        if isinstance(v, VAnyRef) and v.frozen is None:
+            return VDictRef(v)
+        return VDict(ValSort.dv(v.t))
 
     def setitem(self, obj, key, v, lineno=0):
         ck = concrete_of(key)
@@ -673,10 +686,16 @@ class ExprMixin:
             obj.fields[ck] = v
             return
         if isinstance(obj, VDict):
+            from .ty import freeze_refs
             k = coerce(key, Str)
+            freeze_refs(obj)
             obj.t = z3.Store(obj.t, k.t, to_val(v))
             return
         if isinstance(obj, VAny) and isinstance(key, VStr):
+            from .ty import VAnyRef
+            if isinstance(obj, VAnyRef) and obj.frozen is None:
+                self.safety(ValSort.is_D(obj.t), "type(dict) of dynamic value", lineno)
+                return self.setitem(self.dict_view(obj), key, v, lineno)
             raise Unsupported("item assignment through a dynamically typed alias (aliasing not tracked)")
         raise Unsupported(f"item assignment on {obj}")
 
